@@ -431,23 +431,29 @@ s_append(struct Storage* st, const struct VideoFrame* f, size_t* nbytes)
 static void s_destroy(struct Storage* s) { free(containerof(s, struct MSto, sto)); }
 static void s_reserve(struct Storage* s, const struct ImageShape* sh) { (void)s; (void)sh; }
 
-static uint32_t d_count(struct Driver* d) { (void)d; return 4; }
+// devices 0,1: cameras vcam0/1; 2,3: storages vstore0/1; 4: camera "vcam2" and 5: storage "vstore2" are enumerated but cannot
+// be opened (an unplugged / busy device)
+static uint32_t d_count(struct Driver* d) { (void)d; return 6; }
 static enum DeviceStatusCode
 d_describe(const struct Driver* d, struct DeviceIdentifier* id, uint64_t i)
 {
     (void)d;
-    if (i >= 4)
+    if (i >= 6)
         return Device_Err;
     memset(id, 0, sizeof *id);
     id->device_id = (uint8_t)i;
-    id->kind = i < 2 ? DeviceKind_Camera : DeviceKind_Storage;
-    snprintf(id->name, sizeof id->name, "%s%d", i < 2 ? "vcam" : "vstore", (int)(i % 2));
+    id->kind = (i < 2 || i == 4) ? DeviceKind_Camera : DeviceKind_Storage;
+    snprintf(id->name, sizeof id->name, "%s%d", (i < 2 || i == 4) ? "vcam" : "vstore", i >= 4 ? 2 : (int)(i % 2));
     return Device_Ok;
 }
 static enum DeviceStatusCode
 d_open(struct Driver* d, uint64_t i, struct Device** out)
 {
     (void)d;
+    if (i >= 4) {
+        ev("{\"e\":\"DevOpenFail\",\"kind\":\"%s\"}", i == 4 ? "cam" : "sto");
+        return Device_Err;
+    }
     if (i < 2) {
         struct MCam* c = (struct MCam*)calloc(1, sizeof *c);
         c->s = (int)i;
@@ -536,8 +542,8 @@ do_configure(void)
         device_manager_select(dm, DeviceKind_Camera, nm, strlen(nm), &props.video[s].camera.identifier);
         snprintf(nm, sizeof nm, "vstore%d", t);
         device_manager_select(dm, DeviceKind_Storage, nm, strlen(nm), &props.video[s].storage.identifier);
-        props.video[s].camera.settings.shape.x = SC[c].w;
-        props.video[s].camera.settings.shape.y = SC[c].h;
+        props.video[s].camera.settings.shape.x = SC[c < MAXS ? c : 0].w;
+        props.video[s].camera.settings.shape.y = SC[c < MAXS ? c : 0].h;
         props.video[s].max_frame_count = SC[s].frames < 0 ? (uint64_t)-1 : (uint64_t)SC[s].frames;
         props.video[s].frame_average_count = (uint32_t)SC[s].avg;
         props.video[s].storage.write_delay_ms = SC[s].delay_ms;
